@@ -74,13 +74,23 @@ NodeEvictionCandidate to_impl(const RC& r)
     };
 }
 
+/** splitmix64: per-candidate attributes are expanded from an 8-byte seed taken from the choice source (keeps cases small; still a pure function of the bytes) */
+struct Prng {
+    uint64_t x;
+    uint64_t next() { uint64_t z = (x += 0x9e3779b97f4a7c15ULL); z = (z ^ (z >> 30)) * 0xbf58476d1ce4e5b9ULL; z = (z ^ (z >> 27)) * 0x94d049bb133111ebULL; return z ^ (z >> 31); }
+    int below(int n) { return n <= 0 ? 0 : int(next() % uint64_t(n)); }
+    int range(int lo, int hi) { return lo + below(hi - lo + 1); }
+    bool chance(unsigned num_of_256) { return (next() & 0xff) < num_of_256; }
+    bool boolean() { return next() & 1; }
+};
+
 const Network NETS[] = {NET_IPV4, NET_IPV6, NET_ONION, NET_I2P, NET_CJDNS, NET_INTERNAL, NET_UNROUTABLE};
 const ConnectionType CONNS[] = {ConnectionType::INBOUND, ConnectionType::OUTBOUND_FULL_RELAY, ConnectionType::MANUAL, ConnectionType::FEELER,
                                 ConnectionType::BLOCK_RELAY, ConnectionType::ADDR_FETCH};
 
 } // namespace
 
-VERIF_TARGET(c59_eviction, nullptr, 24, 700,
+VERIF_TARGET(c59_eviction, nullptr, 12, 40,
              "candidate sets of 0-130 peers with attributes from small value sets (dense ties in netgroup key, min ping, last tx/block time, connect time), "
              "random relay/bloom/services flags, networks (IPv4/6, onion, I2P, CJDNS, localhost), noban and non-inbound peers mixed in; half of the cases "
              "plant a 'victim' (youngest, prefer_evict, IPv4, worst in three categories) whose rank in the fourth category is set to quota-2..quota+1 "
@@ -96,29 +106,34 @@ VERIF_TARGET(c59_eviction, nullptr, 24, 700,
     const int nvals = s.range<int>(1, 6); // size of the value sets => density of ties
     const unsigned p_noban = s.pick<unsigned>({0u, 16u, 48u, 128u}), p_out = s.pick<unsigned>({0u, 16u, 48u, 128u});
     const unsigned p_special_net = s.pick<unsigned>({0u, 32u, 96u, 200u});
+    // victim parameters are drawn before the bulk data so that they are never starved
+    const int vcat_draw = s.range<int>(0, 3);
+    const int vdelta_draw = s.range<int>(0, 3) - 1; // rivals = quota-1+delta: -1/0 => protected for sure, +1/+2 => not
+    Prng r0{s.ConsumeIntegral<uint64_t>()};
+    Prng& g = r0;
     for (int i = 0; i < n; ++i) {
         RC r{};
-        r.connected_s = 1000 + (s.chance(128) ? s.range<int>(0, nvals) * 100 : s.range<int>(0, 2000));
-        r.ping_us = s.chance(200) ? int64_t(1 + s.range<int>(0, nvals)) * 10000 : s.range<int64_t>(0, 2000000);
-        r.blk_s = s.chance(100) ? 0 : s.range<int>(0, nvals) * 7;
-        r.tx_s = s.chance(100) ? 0 : s.range<int>(0, nvals) * 5;
-        r.relevant = s.boolean(); r.relay = s.boolean(); r.bloom = s.chance(64);
-        r.group = uint64_t(s.range<int>(0, ngroups - 1)) * 1000003u;
-        r.prefer = s.chance(victim_mode ? 12 : 64);
-        r.local = s.chance(p_special_net / 4);
-        r.net = s.chance(p_special_net) ? NETS[2 + s.index(3)] : NETS[s.index(2)];
-        if (s.chance(8)) r.net = NETS[5 + s.index(2)];
-        r.noban = s.chance(p_noban);
-        r.conn = s.chance(p_out) ? CONNS[1 + s.index(5)] : ConnectionType::INBOUND;
+        r.connected_s = 1000 + (g.chance(128) ? g.range(0, nvals) * 100 : g.range(0, 2000));
+        r.ping_us = g.chance(200) ? int64_t(1 + g.range(0, nvals)) * 10000 : int64_t(g.range(0, 2000000));
+        r.blk_s = g.chance(100) ? 0 : g.range(0, nvals) * 7;
+        r.tx_s = g.chance(100) ? 0 : g.range(0, nvals) * 5;
+        r.relevant = g.boolean(); r.relay = g.boolean(); r.bloom = g.chance(64);
+        r.group = uint64_t(g.range(0, ngroups - 1)) * 1000003u;
+        r.prefer = g.chance(victim_mode ? 12 : 64);
+        r.local = g.chance(p_special_net / 4);
+        r.net = g.chance(p_special_net) ? NETS[2 + g.below(3)] : NETS[g.below(2)];
+        if (g.chance(8)) r.net = NETS[5 + g.below(2)];
+        r.noban = g.chance(p_noban);
+        r.conn = g.chance(p_out) ? CONNS[1 + g.below(5)] : ConnectionType::INBOUND;
         v.push_back(r);
     }
     int vcat = -1, vdelta = 0;
     size_t vpos = 0;
     if (victim_mode) {
-        vcat = s.range<int>(0, 3);
-        vdelta = s.range<int>(-1, 2); // rivals = quota-1+delta: -1/0 => protected for sure, +1/+2 => not
+        vcat = vcat_draw;
+        vdelta = vdelta_draw;
         const int rivals = QUOTA[vcat] - 1 + vdelta;
-        vpos = s.index(v.size());
+        vpos = size_t(g.below(int(v.size())));
         RC& x = v[vpos];
         x.conn = ConnectionType::INBOUND; x.noban = false; x.prefer = true; x.local = false; x.net = NET_IPV4;
         x.relay = true; x.bloom = true; x.relevant = false;
@@ -144,14 +159,14 @@ VERIF_TARGET(c59_eviction, nullptr, 24, 700,
         for (size_t j = 0; j < v.size(); ++j) if (j != vpos) others.push_back(j);
         // choose the rivals: a pseudo-random subset driven by the source
         for (int k = 0; k < rivals && !others.empty(); ++k) {
-            size_t pick = s.index(others.size());
+            size_t pick = size_t(g.below(int(others.size())));
             RC& o = v[others[pick]];
             others.erase(others.begin() + long(pick));
-            bool tie = s.chance(100);
-            if (vcat == NETGROUP) o.group = tie ? XG : XG + 1000003u * uint64_t(1 + s.range<int>(0, 3));
-            else if (vcat == PING) o.ping_us = tie ? XP : XP - 1 - s.range<int>(0, 40000);
-            else if (vcat == TXTIME) o.tx_s = tie ? XT : XT + 1 + s.range<int>(0, 50);
-            else o.blk_s = tie ? XB : XB + 1 + s.range<int>(0, 50);
+            bool tie = g.chance(100);
+            if (vcat == NETGROUP) o.group = tie ? XG : XG + 1000003u * uint64_t(1 + g.range(0, 3));
+            else if (vcat == PING) o.ping_us = tie ? XP : XP - 1 - g.range(0, 40000);
+            else if (vcat == TXTIME) o.tx_s = tie ? XT : XT + 1 + g.range(0, 50);
+            else o.blk_s = tie ? XB : XB + 1 + g.range(0, 50);
         }
         for (size_t j : others) { // strictly worse than the victim
             RC& o = v[j];
@@ -164,7 +179,7 @@ VERIF_TARGET(c59_eviction, nullptr, 24, 700,
     // ids are unique (assigned before the shuffle); shuffled input order (std::sort is not stable: tie outcomes depend on the input order)
     for (size_t i = 0; i < v.size(); ++i) v[i].id = int64_t(1000 + i);
     const int64_t victim_id = victim_mode ? int64_t(1000 + vpos) : -1;
-    for (size_t i = v.size(); i > 1; --i) std::swap(v[i - 1], v[s.index(i)]);
+    for (size_t i = v.size(); i > 1; --i) std::swap(v[i - 1], v[size_t(g.below(int(i)))]);
 
     std::vector<NodeEvictionCandidate> impl;
     int n_noban = 0, n_out = 0;
